@@ -65,7 +65,7 @@ fn exhaustive_geometries(ctx: &Ctx) -> Vec<(u8, u8)> {
 fn gen_cases(ctx: &Ctx) -> Vec<Case> {
     let mut v = Vec::new();
     // deterministic witnesses of the known findings first
-    for name in ["csi-indexer-loffset-rewrite", "fai-non-utf8-name", "crai-two-records"] {
+    for name in ["csi-indexer-loffset-rewrite", "csi-bins-without-loffset-entries", "linear-index-shorter-than-bins", "fai-non-utf8-name", "crai-two-records"] {
         v.push(Case::Witness { name });
     }
     for (ms, d) in exhaustive_geometries(ctx) {
@@ -141,7 +141,7 @@ fn run_rt(ctx: &Ctx, idx: u64, kind: &'static str, src: &'static str, k: u64, o:
                 };
                 let file = if j % 8 == 0 { Some(scratch("x.bai")) } else { None };
                 let back = rt::rt_bai(&ix, file.as_deref());
-                if let Some(jd) = rt::judge_binning("bai", src, &ix, back, &mut rng, o, None) {
+                if let Some(jd) = rt::judge_binning("bai", src, &ix, back, &mut rng, o, None, &|x| rt::rt_bai(x, None)) {
                     evals += 1;
                     o.fps.push(rt::fp(kind, src, &shape, &format!("{}|{}", jd.equal, file.is_some())));
                 }
@@ -180,7 +180,7 @@ fn run_rt(ctx: &Ctx, idx: u64, kind: &'static str, src: &'static str, k: u64, o:
                 };
                 let file = if j % 8 == 0 { Some(scratch("x.tbi")) } else { None };
                 let back = rt::rt_tabix(&ix, file.as_deref());
-                if let Some(jd) = rt::judge_binning("tabix", src, &ix, back, &mut rng, o, None) {
+                if let Some(jd) = rt::judge_binning("tabix", src, &ix, back, &mut rng, o, None, &|x| rt::rt_tabix(x, None)) {
                     evals += 1;
                     o.fps.push(rt::fp(kind, src, &shape, &format!("{}|{}", jd.equal, file.is_some())));
                 }
@@ -207,13 +207,15 @@ fn run_rt(ctx: &Ctx, idx: u64, kind: &'static str, src: &'static str, k: u64, o:
                 } else {
                     let nrefs = *rng.pick(&[0usize, 1, 2, 5]);
                     let fixed = rng.bool();
+                    // half of the indexes have an loffset entry for every bin, the others for none / some / only non-leaf / only leaf bins
+                    let entries = *rng.pick(&[rt::Entries::All, rt::Entries::All, rt::Entries::All, rt::Entries::All, rt::Entries::None, rt::Entries::Some, rt::Entries::OnlyAncestors, rt::Entries::OnlyLeaves]);
                     let h = if with_header { Some(rt::arb_header(&mut rng, nrefs, false)) } else { None };
-                    (rt::arb_binned(&mut rng, ms, d, h, nrefs, fixed), format!("arb|refs={nrefs}|{ms},{d}|h={with_header}|fixed={fixed}"))
+                    (rt::arb_binned(&mut rng, ms, d, h, nrefs, fixed, entries), format!("arb|refs={nrefs}|{ms},{d}|h={with_header}|fixed={fixed}|entries={entries:?}"))
                 };
                 let file = if j % 8 == 0 { Some(scratch("x.csi")) } else { None };
                 let back = rt::rt_csi(&ix, file.as_deref());
-                let explain: &dyn Fn(&csi::Index, &csi::Index) -> bool = &rt::csi_loffset_diff_is_ancestor_minimum;
-                if let Some(jd) = rt::judge_binning("csi", src, &ix, back, &mut rng, o, Some(explain)) {
+                let explain: &dyn Fn(&csi::Index, &csi::Index) -> Option<&'static str> = &rt::csi_loffset_diff_is_ancestor_minimum;
+                if let Some(jd) = rt::judge_binning("csi", src, &ix, back, &mut rng, o, Some(explain), &|x| rt::rt_csi(x, None)) {
                     evals += 1;
                     o.fps.push(rt::fp(kind, src, &shape, &format!("{}|{}", jd.equal, file.is_some())));
                 }
@@ -278,7 +280,7 @@ fn run_fs_index(ctx: &Ctx, idx: u64, kind: &str, j: usize, rng: &mut Rng, o: &mu
             match guard::catch(|| bam::fs::index(&path)) {
                 Ok(Ok(ix)) => {
                     let back = rt::rt_bai(&ix, Some(&p("bai")));
-                    if rt::judge_binning("bai", "fs-index", &ix, back, rng, o, None).is_some() {
+                    if rt::judge_binning("bai", "fs-index", &ix, back, rng, o, None, &|x| rt::rt_bai(x, None)).is_some() {
                         o.fps.push(rt::fp(kind, "fs-index", &format!("{}|{}", set.refs.len(), set.recs.len() / 10), ""));
                         return 1;
                     }
@@ -297,8 +299,8 @@ fn run_fs_index(ctx: &Ctx, idx: u64, kind: &str, j: usize, rng: &mut Rng, o: &mu
             match guard::catch(|| bcf::fs::index(&path)) {
                 Ok(Ok(ix)) => {
                     let back = rt::rt_csi(&ix, Some(&p("csi")));
-                    let explain: &dyn Fn(&csi::Index, &csi::Index) -> bool = &rt::csi_loffset_diff_is_ancestor_minimum;
-                    if rt::judge_binning("csi", "fs-index", &ix, back, rng, o, Some(explain)).is_some() {
+                    let explain: &dyn Fn(&csi::Index, &csi::Index) -> Option<&'static str> = &rt::csi_loffset_diff_is_ancestor_minimum;
+                    if rt::judge_binning("csi", "fs-index", &ix, back, rng, o, Some(explain), &|x| rt::rt_csi(x, None)).is_some() {
                         o.fps.push(rt::fp(kind, "fs-index", &format!("{}|{}", set.contigs.len(), set.recs.len() / 10), ""));
                         return 1;
                     }
@@ -317,7 +319,7 @@ fn run_fs_index(ctx: &Ctx, idx: u64, kind: &str, j: usize, rng: &mut Rng, o: &mu
             match guard::catch(|| vcf::fs::index(&path)) {
                 Ok(Ok(ix)) => {
                     let back = rt::rt_tabix(&ix, Some(&p("tbi")));
-                    if rt::judge_binning("tabix", "fs-index", &ix, back, rng, o, None).is_some() {
+                    if rt::judge_binning("tabix", "fs-index", &ix, back, rng, o, None, &|x| rt::rt_tabix(x, None)).is_some() {
                         o.fps.push(rt::fp(kind, "fs-index", &format!("{}|{}", set.contigs.len(), set.recs.len() / 10), ""));
                         return 1;
                     }
@@ -442,12 +444,65 @@ fn run_witness(name: &str, o: &mut CaseOut) {
                 match rt::drive::<BinnedIndex>(&st, ms, d, None) {
                     Ok(ix) => {
                         let back = rt::rt_csi(&ix, None);
-                        let explain: &dyn Fn(&csi::Index, &csi::Index) -> bool = &rt::csi_loffset_diff_is_ancestor_minimum;
-                        rt::judge_binning("csi", "indexer", &ix, back, &mut rng, o, Some(explain));
+                        let explain: &dyn Fn(&csi::Index, &csi::Index) -> Option<&'static str> = &rt::csi_loffset_diff_is_ancestor_minimum;
+                        rt::judge_binning("csi", "indexer", &ix, back, &mut rng, o, Some(explain), &|x| rt::rt_csi(x, None));
                         o.fps.push(rt::fp("csi", "witness", label, ""));
                     }
                     Err(e) => o.inconclusive.push(format!("witness {name}: indexer refused the stream: {e}")),
                 }
+            }
+        }
+        // Hand-built CSI indexes whose loffset key set is a strict subset of the bin keys (constructible through
+        // ReferenceSequence::new; e.g. an index assembled from bins only). Geometry (4,2): root 0, level-1 bin 1
+        // (positions 1..=128), leaves 9 (1..=16), 10 (17..=32), 17 (129..=144, child of 2). Chunks are laid out so that every
+        // loffset value separates two chunks, i.e. a changed lower bound changes an answer.
+        "csi-bins-without-loffset-entries" => {
+            use csi::binning_index::index::{ReferenceSequence, reference_sequence::{Bin, bin::Chunk}};
+            let chunk = |a: u64, b: u64| Chunk::new(binning::vp(a), binning::vp(b));
+            let bins = || -> indexmap::IndexMap<usize, Bin> {
+                [(0usize, Bin::new(vec![chunk(10, 20)])), (1, Bin::new(vec![chunk(30, 40)])), (9, Bin::new(vec![chunk(50, 60), chunk(90, 95)])), (10, Bin::new(vec![chunk(70, 80)])), (17, Bin::new(vec![chunk(100, 110)]))].into_iter().collect()
+            };
+            let shapes: [(&str, Vec<(usize, u64)>); 8] = [
+                ("no-entries", vec![]),
+                ("only-root", vec![(0, 25)]),
+                ("only-level1", vec![(1, 45)]),
+                ("only-leaves", vec![(9, 50), (10, 70), (17, 100)]),
+                ("one-leaf", vec![(10, 65)]),
+                ("root-and-leaf-gap", vec![(0, 25), (9, 55)]),
+                ("ancestors-only", vec![(0, 15), (1, 45)]),
+                ("all", vec![(0, 10), (1, 30), (9, 50), (10, 70), (17, 100)]),
+            ];
+            for (label, entries) in shapes {
+                for (ms, d) in [(4u8, 2u8), (14, 2)] {
+                    let ix: BinnedIndex = entries.iter().map(|&(k, v)| (k, binning::vp(v))).collect();
+                    let rs = ReferenceSequence::new(bins(), ix, None);
+                    let index = csi::Index::builder().set_min_shift(ms).set_depth(d).set_reference_sequences(vec![rs]).build();
+                    let back = rt::rt_csi(&index, None);
+                    let explain: &dyn Fn(&csi::Index, &csi::Index) -> Option<&'static str> = &rt::csi_loffset_diff_is_ancestor_minimum;
+                    rt::judge_binning("csi", "arbitrary", &index, back, &mut rng, o, Some(explain), &|x| rt::rt_csi(x, None));
+                    o.fps.push(rt::fp("csi", "witness-entries", label, &format!("{ms},{d}")));
+                }
+            }
+        }
+        // BAI / tabix whose linear index is shorter than the highest window that holds a bin (or empty): min_offset is 0
+        // beyond its end, before and after the round trip.
+        "linear-index-shorter-than-bins" => {
+            use csi::binning_index::index::{ReferenceSequence, reference_sequence::{Bin, bin::Chunk}};
+            let chunk = |a: u64, b: u64| Chunk::new(binning::vp(a), binning::vp(b));
+            for (label, lin) in [("empty", vec![]), ("one-window", vec![15u64]), ("three-windows", vec![0, 35, 75]), ("zeros", vec![0, 0, 0, 0])] {
+                let bins: indexmap::IndexMap<usize, Bin> =
+                    [(0usize, Bin::new(vec![chunk(10, 20)])), (4681, Bin::new(vec![chunk(30, 40)])), (4683, Bin::new(vec![chunk(50, 60)])), (4700, Bin::new(vec![chunk(70, 80)])), (37448, Bin::new(vec![chunk(90, 100)]))].into_iter().collect();
+                let lin: LinearIndex = lin.into_iter().map(binning::vp).collect();
+                let rs = ReferenceSequence::new(bins, lin, None);
+                let bai: bam::bai::Index = csi::binning_index::Index::builder().set_reference_sequences(vec![rs.clone()]).build();
+                let back = rt::rt_bai(&bai, None);
+                rt::judge_binning("bai", "arbitrary", &bai, back, &mut rng, o, None, &|x| rt::rt_bai(x, None));
+                let names = [bstr::BString::from("sq0")].into_iter().collect();
+                let h = csi::binning_index::index::header::Builder::vcf().set_reference_sequence_names(names).build();
+                let tbx: tabix::Index = csi::binning_index::Index::builder().set_header(h).set_reference_sequences(vec![rs]).build();
+                let back = rt::rt_tabix(&tbx, None);
+                rt::judge_binning("tabix", "arbitrary", &tbx, back, &mut rng, o, None, &|x| rt::rt_tabix(x, None));
+                o.fps.push(rt::fp("linear", "witness-short", label, ""));
             }
         }
         "fai-non-utf8-name" => {
@@ -503,7 +558,7 @@ fn main() {
          queries per reference. distinct = distinct (sub-check, geometry, interval level classes / list shape / index shape, outcome class).",
     );
     rep.assumptions.push("bin numbering (ids per level, bin intervals) follows CSIv1; chunks are half-open [start,end) ranges of virtual positions".into());
-    rep.assumptions.push("structurally valid index := what the file format can represent: bin ids below the geometry's bin count; BAI/tabix at (14,5); CSI loffset keys = bin keys; tabix names without NUL and as many names as reference sequences; FAI names = what a FASTA definition line yields (non-empty, no ASCII whitespace); CRAI reference ids <= i32::MAX".into());
+    rep.assumptions.push("structurally valid index := what the file format can represent: bin ids below the geometry's bin count; BAI/tabix at (14,5); CSI loffset keys = any subset of the bin keys (no entries for bins that do not exist); tabix names without NUL and as many names as reference sequences; FAI names = what a FASTA definition line yields (non-empty, no ASCII whitespace); CRAI reference ids <= i32::MAX".into());
     rep.assumptions.push("positions: features in 1..=2^(min_shift+3*depth), regions end at 2^(min_shift+3*depth)-1, the largest position ReferenceSequence::query accepts".into());
     let cases = gen_cases(&ctx);
     let f = |i: u64| -> CaseOut { run_case(&ctx, i, &cases[i as usize]) };
